@@ -52,6 +52,7 @@ var propDeps = map[string][]string{
 	"C02": {"C04", "C06", "C07", "C08", "C11"},
 	"C01": {"C04", "C11"},
 	"C19": {"C04"},
+	"C13": {"C04"}, // purity of a query includes the frames of the whole Match chain
 }
 
 func hasProp(ps []string, p string) bool {
